@@ -87,3 +87,72 @@ def flat(g):
 
 def distinct_values(b):
     return len(set(b))
+
+
+# ---------------------------------------------------------------------------------------
+# filler Lua: simple statements carrying arbitrary P8SCII bytes in strings, comments, names
+# ---------------------------------------------------------------------------------------
+
+_NAME_START = b'abcdefghijklmnopqrstuvwxyz_ABCXYZ' + bytes(range(0x80, 0x100))
+_NAME_REST = _NAME_START + b'0123456789'
+_KEYWORDS = {b'and', b'break', b'do', b'else', b'elseif', b'end', b'false', b'for', b'function', b'goto',
+             b'if', b'in', b'local', b'nil', b'not', b'or', b'repeat', b'return', b'then', b'true',
+             b'until', b'while'}
+
+
+def filler_name(ch):
+    n = 1 + ch.below(6)
+    name = bytes([ch.pick(_NAME_START)] + [ch.pick(_NAME_REST) for _ in range(n - 1)])
+    if name in _KEYWORDS:
+        name += b'_'
+    return name
+
+
+def filler_string_body(ch, quote, allow_escapes=False):
+    """Raw bytes legal inside a one-line quoted string (no quote, backslash, CR, LF)."""
+    n = ch.below(12)
+    out = bytearray()
+    for _ in range(n):
+        b = ch.byte()
+        if b in (quote, 0x5c, 0x0a, 0x0d):
+            b = 0x61
+        out.append(b)
+    return bytes(out)
+
+
+def filler_code(ch, max_lines=12, crlf=False):
+    """Returns (source bytes, stats dict)."""
+    lines = []
+    nl = b'\r\n' if crlf else b'\n'
+    n = ch.below(max_lines + 1)
+    has_high = False
+    for _ in range(n):
+        kind = ch.below(8)
+        if kind == 0:
+            ln = filler_name(ch) + b'=' + str(ch.below(65536)).encode()
+        elif kind == 1:
+            q = ch.pick(b'"\'')
+            body = filler_string_body(ch, q)
+            ln = filler_name(ch) + b' = ' + bytes((q,)) + body + bytes((q,))
+        elif kind == 2:
+            body = bytes(b if b not in (0x0a, 0x0d) else 0x20 for b in ch.take(ch.below(16)))
+            ln = b'-- ' + body
+        elif kind == 3:
+            ln = b''
+        elif kind == 4:
+            ln = b'  ' + filler_name(ch) + b'(' + filler_name(ch) + b')\t '
+        elif kind == 5:
+            ln = b'if ' + filler_name(ch) + b' then ' + filler_name(ch) + b'+=1 end'
+        elif kind == 6:
+            body = bytes(b if b not in (0x0a, 0x0d, 0x5d) else 0x2e for b in ch.take(ch.below(10)))
+            ln = filler_name(ch) + b'=[[' + body + b']]'
+        else:
+            ln = b'print(' + b'"' + filler_string_body(ch, 0x22) + b'"' + b')  // ' + filler_name(ch)
+        if any(b >= 0x80 or b < 0x20 for b in ln):
+            has_high = True
+        lines.append(ln)
+    src = nl.join(lines)
+    final_nl = ch.chance(200)
+    if lines and final_nl:
+        src += nl
+    return src, {'lines': n, 'has_special_bytes': has_high, 'final_newline': bool(lines) and final_nl}
